@@ -94,7 +94,8 @@ func (e *Engine) verifyFunction(fn *ssa.Function, ct *Contract) {
 	}
 	contracts := []*Contract{ct}
 	if ct.Refines != "" {
-		rc, ok := e.specs.Contracts[ct.Refines]
+		rc := e.lookup(ct.Refines)
+		ok := rc != nil
 		if !ok {
 			e.errorf("%s: refines unknown contract %s", fn, ct.Refines)
 			return
@@ -149,6 +150,9 @@ func (e *Engine) verifyFunction(fn *ssa.Function, ct *Contract) {
 				}
 			}
 			ctx := &EvalCtx{e: e, st: st2, old: st2.entry, vars: rv, c: c, pkg: pkg, fr: fr, entryAllocs: entryAllocs}
+			if c == ct {
+				e.frameCheck(st2, fr, ctx, ct, pathID)
+			}
 			probes := e.collectProbes(ctx, c)
 			var prefs []string
 			for _, pf := range c.Prefers {
@@ -263,7 +267,7 @@ func (e *Engine) specDecls() string {
 	var b strings.Builder
 	for _, n := range e.specs.FuncOrder {
 		f := e.specs.Funcs[n]
-		if f.Def != nil {
+		if f.Def != nil || preambleFuncs[n] {
 			continue
 		}
 		var ps []string
@@ -483,7 +487,7 @@ func (e *Engine) havocLoop(fr *Frame, st *State, hdr *ssa.BasicBlock, c *Contrac
 			var callee *ssa.Function
 			if cc.IsInvoke() {
 				for _, k := range e.ifaceKeys(cc) {
-					if x, ok := e.specs.Contracts[k]; ok {
+					if x := e.lookup(k); x != nil {
 						ct = x
 						break
 					}
@@ -492,9 +496,9 @@ func (e *Engine) havocLoop(fr *Frame, st *State, hdr *ssa.BasicBlock, c *Contrac
 				if _, ok := intrinsics[callee.String()]; ok {
 					return
 				}
-				ct = e.specs.Contracts[callee.String()]
+				ct = e.lookup(callee.String())
 			} else if k := e.funcValueKey(cc.Value); k != "" {
-				ct = e.specs.Contracts[k]
+				ct = e.lookup(k)
 			}
 			if ct != nil && (callee == nil || ct.Opts["inline"] == "") {
 				for _, m := range ct.Modifies {
@@ -633,4 +637,168 @@ func hasTag(tags []string, t string) bool {
 		}
 	}
 	return false
+}
+
+var preambleFuncs = map[string]bool{"fieldref": true, "boxref": true, "slen": true, "sat": true, "scat": true, "ssub": true}
+
+// frameCheck: everything the body changed that a caller could observe must be listed in `modifies`.
+// Heap arrays are compared on references that existed at entry (r >= 0, or allocated before entry);
+// ghost variables and globals by equality.  Callers havoc exactly the declared targets, so an
+// incomplete frame would make call sites unsound: it is an obligation of the callee.
+func (e *Engine) frameCheck(st *State, fr *Frame, ctx *EvalCtx, ct *Contract, pathID int) {
+	octx := *ctx
+	octx.inOld = true
+	mt, err := e.resolveMods(&octx, ct.Modifies)
+	if err != nil {
+		e.errorf("%s: modifies: %v", fr.fn, err)
+		return
+	}
+	if mt.all {
+		return
+	}
+	allowedKey := map[string]bool{}
+	for _, k := range mt.keys {
+		allowedKey[k] = true
+	}
+	for _, p := range mt.cells {
+		pt := p.Typ.Underlying().(*types.Pointer)
+		ks := map[string]bool{}
+		if p.Addr != nil {
+			ks[p.Addr.Key] = true
+		} else {
+			e.allocKeys(pt.Elem(), ks)
+		}
+		for k := range ks {
+			allowedKey[k] = true
+		}
+	}
+	allowedGhost := map[string]bool{}
+	for _, g := range mt.ghosts {
+		allowedGhost[g] = true
+	}
+	var keys []string
+	for k := range st.heap {
+		keys = append(keys, k)
+	}
+	sort.Strings(keys)
+	for _, k := range keys {
+		now := st.heap[k]
+		was, ok := st.entry.heap[k]
+		if !ok {
+			was = "H0_" + mangle(k)
+			st.declare(was, e.heapSort(k))
+		}
+		if now == was || allowedKey[k] {
+			continue
+		}
+		var goal string
+		if strings.HasPrefix(k, "G|") {
+			goal = eq(now, was)
+		} else {
+			r := freshName("q_r")
+			goal = "(forall ((" + r + " Int)) (=> (>= " + r + " 0) (= (select " + now + " " + r + ") (select " + was + " " + r + "))))"
+		}
+		o := e.addObligation(st, fr, "frame", []string{"frame"}, "heap "+k+" unchanged for pre-existing objects (not in modifies)", fr.fn.String(), goal, nil)
+		o.Path = pathID
+	}
+	var gs []string
+	for g := range st.ghost {
+		gs = append(gs, g)
+	}
+	sort.Strings(gs)
+	for _, g := range gs {
+		now := st.ghost[g]
+		was, ok := st.entry.ghost[g]
+		if !ok {
+			was = "G0_" + g
+			st.declare(was, e.ghostSort(g))
+		}
+		if now == was || allowedGhost[g] {
+			continue
+		}
+		o := e.addObligation(st, fr, "frame", []string{"frame"}, "ghost "+g+" unchanged (not in modifies)", fr.fn.String(), eq(now, was), nil)
+		o.Path = pathID
+	}
+}
+
+// loopFrame is the implicit frame invariant of every loop: objects that existed when the function was
+// entered (references >= 0) and globals are not modified by the loop unless the function's `modifies`
+// names their heap kind.  Assumed after the loop havoc (assume=true), asserted at the back edge.
+func (e *Engine) loopFrame(fr *Frame, st *State, c *Contract, ord int, pre map[string]string, assume bool) {
+	if assume {
+		if fr.loopPre == nil {
+			fr.loopPre = map[int]map[string]string{}
+		} else {
+			n := map[int]map[string]string{}
+			for k, v := range fr.loopPre {
+				n[k] = v
+			}
+			fr.loopPre = n
+		}
+		fr.loopPre[ord] = pre
+	} else {
+		pre = fr.loopPre[ord]
+	}
+	allowed := map[string]bool{}
+	all := false
+	if c != nil {
+		vars := map[string]*Val{}
+		for _, p := range fr.fn.Params {
+			vars[p.Name()] = fr.env[p]
+		}
+		ctx := &EvalCtx{e: e, st: st, old: st.entry, inOld: true, vars: vars, c: c, pkg: fr.fn.Package(), fr: fr}
+		if mt, err := e.resolveMods(ctx, c.Modifies); err == nil {
+			all = mt.all
+			for _, k := range mt.keys {
+				allowed[k] = true
+			}
+			for _, p := range mt.cells {
+				ks := map[string]bool{}
+				if p.Addr != nil {
+					ks[p.Addr.Key] = true
+				} else {
+					e.allocKeys(p.Typ.Underlying().(*types.Pointer).Elem(), ks)
+				}
+				for k := range ks {
+					allowed[k] = true
+				}
+			}
+		}
+		for _, m := range c.ModLoop[ord] {
+			if strings.HasPrefix(m, "key:") {
+				allowed[m[4:]] = true
+			}
+		}
+	}
+	if all {
+		return
+	}
+	var keys []string
+	for k := range st.heap {
+		keys = append(keys, k)
+	}
+	sort.Strings(keys)
+	for _, k := range keys {
+		now := st.heap[k]
+		was, ok := pre[k]
+		if !ok {
+			was = "H0_" + mangle(k)
+			st.declare(was, e.heapSort(k))
+		}
+		if now == was || allowed[k] {
+			continue
+		}
+		var f string
+		if strings.HasPrefix(k, "G|") {
+			f = eq(now, was)
+		} else {
+			r := freshName("q_r")
+			f = "(forall ((" + r + " Int)) (=> (>= " + r + " 0) (= (select " + now + " " + r + ") (select " + was + " " + r + "))))"
+		}
+		if assume {
+			st.assume(f)
+		} else {
+			e.addObligation(st, fr, "invariant-preserved", []string{"frame"}, fmt.Sprintf("loop#%d frame: heap %s unchanged for objects that existed at function entry", ord, k), fr.fn.String(), f, nil)
+		}
+	}
 }
